@@ -65,6 +65,8 @@ pub fn roundtrip(lm: &LMsg, key: Option<&Keyed>, rep: &mut Report) -> Option<Vec
     // 2. accessors give back what was constructed
     for (built, want) in msg.attributes().iter().zip(lm.attrs.iter()) {
         let got = from_subject(built);
+        // (a REALM / NONCE given in the quoted form holds the content of the quoted form)
+        let want = &menu::expected_constructed(want);
         if &got != want {
             rep.violate(
                 format!("constructor-alters-value/{}/{}", want.kind(), value_class(want)),
